@@ -173,6 +173,9 @@ func randCanonSet(r *RNG, wide bool) set56 {
 			var l []iv
 			cur := int64(1 + r.Intn(5))
 			k := r.Range(1, 5)
+			if r.Chance(1, 5) {
+				k = r.Range(6, 40) // a heavily fragmented server (gaps left by skipped / filtered transactions)
+			}
 			for j := 0; j < k; j++ {
 				if r.Chance(1, 6) {
 					cur += int64(r.U64() >> uint(r.Range(2, 40)))
@@ -697,6 +700,63 @@ func genC19(r *RNG, tier string) []Case {
 			}
 			return im == b01(want), "containment must compare sequence numbers within the domain"
 		})
+		// set-against-set containment: the other set lists (some of) the same domains in ANOTHER order, with sequence
+		// numbers at / below / above the receiver's, possibly with a domain the receiver lacks
+		{
+			var other []mg
+			for _, j := range r.Perm(len(ml)) {
+				if r.Chance(1, 4) {
+					continue
+				}
+				g := ml[j]
+				switch r.Intn(6) {
+				case 0:
+					g.q++
+				case 1, 2:
+					if g.q > 0 {
+						g.q -= uint64(r.Range(1, 3))
+						if g.q > ml[j].q { // wrapped
+							g.q = 0
+						}
+					}
+				}
+				if r.Chance(1, 3) {
+					g.sv = uint32(r.U64())
+				}
+				other = append(other, g)
+			}
+			if r.Chance(1, 6) {
+				other = append(other, mg{uint32(r.U64()) | 1<<31, 1, 1})
+			}
+			if len(other) > 0 {
+				a, b := append([]mg(nil), ml...), append([]mg(nil), other...)
+				simple("mar op=contains a="+mariaAbs(a)+" b="+mariaAbs(b), "maria-contains-set", func() string {
+					return b01(mariaImpl(a).Contains(mariaImpl(b)))
+				}, func(im string) (bool, string) {
+					want := true
+					for _, g := range b {
+						found := false
+						for _, h := range a {
+							if h.d == g.d && h.q >= g.q {
+								found = true
+							}
+						}
+						want = want && found
+					}
+					return im == b01(want), "a set contains another iff, domain by domain, its sequence number is at least the other's - whatever the order the domains are listed in"
+				})
+				eq := append([]mg(nil), ml...)
+				if r.Bool() {
+					k := r.Intn(len(eq))
+					eq[k].q ^= 1
+				}
+				simple("mar op=equal a="+mariaAbs(a)+" b="+mariaAbs(eq), "maria-equal-set", func() string {
+					return b01(mariaImpl(a).Equal(mariaImpl(eq)))
+				}, func(im string) (bool, string) {
+					return im == b01(mariaAbs(a) == mariaAbs(eq)), "sets listing the same members in the same order are equal, sets differing in a sequence number are not"
+				})
+			}
+		}
 		recvL := append([]mg(nil), ml...)
 		simple(fmt.Sprintf("mar op=add set=%s d=%d sv=%d q=%d", mariaAbs(ml), probe.d, probe.sv, probe.q), "maria-add", func() string {
 			recv := mariaImpl(recvL)
